@@ -169,7 +169,7 @@ def run(ctx):
     W2 = {"new_task": 60, "set": 20, "sequence": 20}
     for i in range(3 if ctx.quick else 40):
         explore2.explore(ctx, "C15", r.fork(), kindsA=("seq_opposed",), kindsB=("seq_opposed",), max_points=(6 if ctx.quick else 40), state_cmds=6, post_oracle=post, weights=W2)
-    ctx.cov["rule"] = ("two-level graphs (2–4 epics, tasks inside them, task edges crossing epics, epic→epic edges, epic moves), states driven to todo/done/canceled; "
+    ctx.cov["rule"] = ("claim → hand back → claim on a task whose log carries an earlier claim-and-release stamped ahead; two-level graphs (2–4 epics, tasks inside them, task edges crossing epics, epic→epic edges, epic moves), states driven to todo/done/canceled; "
                        "oracle: cycle search in the effective waits-for relation + premises ⇒ claim must not answer no_ready")
 
 
